@@ -119,14 +119,26 @@ func judgeInvalidation(r *Run, j *Judged, cl []*cls) {
 			overlapping := false
 			for _, o := range r.Calls {
 				if o.Res == cx.B.Res && safeMethods[o.Req.Method] && o.SeqStart < u.SeqRet && r.lastSeqOfLineage(o) > u.SeqInv {
+					if o.Resp != nil && !o.Resp.Is304 && o.Ended && o != cx.B.Call {
+						// a full reply in flight across the unsafe request stores *its own* response (and may write an
+						// index that still lists B's record): it cannot bring B's entry back, which the
+						// invalidation has deleted - B served afterwards has survived the invalidation
+						continue
+					}
 					if o.Resp != nil && o.Resp.Is304 && !o.Resp.Bare && o.Ended && o.Resp.SeqResp > u.SeqRet {
 						// ... unless somebody has stored a response for the URI again before the 304 arrived: the
 						// new entry may have the key of the old one, and the late write-back landing on it is the
 						// lost-update race between two storing exchanges, not a matter of invalidation
 						again := false
 						for _, o2 := range r.Calls {
-							if o2 != o && o2.Res == cx.B.Res && safeMethods[o2.Req.Method] && o2.SeqStart >= u.SeqInv && o2.SeqStart < r.lastSeqOfLineage(o) {
+							// (whenever it began: what matters is that its store writes fall between the invalidation
+							// and the end of the 304's write-back)
+							if o2 != o && o2.Res == cx.B.Res && safeMethods[o2.Req.Method] && o2.Resp != nil && !o2.Resp.Is304 &&
+								r.lastSeqOfLineage(o2) > u.SeqInv && o2.Resp.SeqResp < r.lastSeqOfLineage(o) {
 								again = true
+							}
+							if o2 != o && o2.Res == cx.B.Res && safeMethods[o2.Req.Method] && o2.Resp == nil && o2.SeqStart < r.lastSeqOfLineage(o) && (!o2.Ended || o2.SeqEnd > u.SeqInv) {
+								again = true // still in flight or failed in between: what it wrote is not known from its reply
 							}
 						}
 						if !again {
